@@ -173,7 +173,8 @@ theorem invented_never_reused {I : Type} (f : Nat → I) (hf : Injective f) (ss 
   rw [fillAll_invented]
   exact nodup_map_of_injective f hf _ (List.nodup_range' (step := 1))
 
-example : Injective (fun k : Nat => inventedName k) ∨ True := Or.inr trivial
+example : (inventedAll (fillAll (fun k => k + 100) [.node [] .hole (.given "g".toList), .hole] 3).1).Nodup :=
+  invented_never_reused _ (by intro a b h; simpa using h) _ _
 
 example : (inventedAll (fillAll id [.node [] .hole (.given "g".toList), .hole, .node [] .hole .hole] 0).1)
     = [0, 1, 2, 3] := by decide
@@ -219,6 +220,14 @@ theorem induced_bijective {I J : Type} (f : Nat → I) (g : Nat → J) (hf : Inj
   · rintro a a' b ⟨k, hk, hb⟩ ⟨k', hk', hb'⟩
     have : k = k' := hg _ _ (hb ▸ hb')
     subst this; rw [hk, hk']
+
+/-- injectivity is forced: a repeating stream relates one id of run 1 to two ids of run 2 -/
+theorem induced_needs_injective :
+    ¬ (∀ a b b', Induced (fun _ : Nat => (0 : Nat)) (id : Nat → Nat) a b →
+        Induced (fun _ : Nat => (0 : Nat)) id a b' → b = b') := by
+  intro h
+  have := h 0 1 2 ⟨1, rfl, rfl⟩ ⟨2, rfl, rfl⟩
+  omega
 
 theorem treeRel_map {I J : Type} (f : Nat → I) (g : Nat → J) (t : Tree Nat) :
     TreeRel (Induced f g) (t.map f) (t.map g) := by
@@ -483,6 +492,9 @@ theorem record_after_generate_noop (d : PyDict) (n : Str) (u : Option Str)
   · simp [hc]
   · simp [hc]
 
+example : recordUuid [("g".toList, some "u1".toList)] "g".toList none = .ok [("g".toList, some "u1".toList)] :=
+  record_after_generate_noop _ _ _ (by decide) (by decide) (Or.inl rfl)
+
 /-- consistency is forced: a different uuid for a recorded name is an error, not a no-op -/
 theorem record_needs_consistent :
     recordUuid [("g".toList, some "u1".toList)] "g".toList (some "u2".toList) = .error "multiple uuids".toList := by
@@ -529,6 +541,160 @@ theorem validate_idem (d d' : PyDict) (refs refs' : List (Str × Option Str)) (c
 example : validate [("f".toList, none)] [("f".toList, none), ("g".toList, some "u".toList)] 0
     = .ok ([("f".toList, some "#0".toList), ("g".toList, some "u".toList)],
            [("f".toList, some "#0".toList), ("g".toList, some "u".toList)], 1) := by rfl
+
+/-! ### render / to_rows commute exactly when every reference carries its uuid
+
+`to_rows` exports the uuid of a group / flow reference as `obj_id`; `render` = `validate` then a
+pure function.  So `to_rows` before and after `render` agree iff `validate` leaves the references
+as they are.  The hypothesis forced by the proof is the trigger of known finding F-C13-a. -/
+
+theorem get_set_same (d : PyDict) (k : Str) (v : Option Str) : (d.set k v).get k = v := by
+  induction d with
+  | nil => simp [PyDict.set, PyDict.get, List.find?]
+  | cons e d ih =>
+    rcases e with ⟨k0, v0⟩
+    simp only [PyDict.set]
+    split
+    · next h => simp [PyDict.get, List.find?, h]
+    · next h =>
+      have : PyDict.get ((k0, v0) :: PyDict.set d k v) k = PyDict.get (PyDict.set d k v) k := by
+        simp [PyDict.get, List.find?, h]
+      rw [this, ih]
+
+theorem get_set_other (d : PyDict) (k k' : Str) (v : Option Str) (hne : k' ≠ k) :
+    (d.set k v).get k' = d.get k' := by
+  induction d with
+  | nil =>
+    have : (k = k') = False := by simp; exact fun e => hne e.symm
+    simp [PyDict.set, PyDict.get, List.find?, this]
+  | cons e d ih =>
+    rcases e with ⟨k0, v0⟩
+    simp only [PyDict.set]
+    split
+    · next h =>
+      subst h
+      have : (k0 = k') = False := by simp; exact fun e => hne e.symm
+      simp [PyDict.get, List.find?, this]
+    · next h =>
+      by_cases h0 : k0 = k'
+      · simp [PyDict.get, List.find?, h0]
+      · have a1 : PyDict.get ((k0, v0) :: PyDict.set d k v) k' = PyDict.get (PyDict.set d k v) k' := by
+          simp [PyDict.get, List.find?, h0]
+        have a2 : PyDict.get ((k0, v0) :: d) k' = PyDict.get d k' := by
+          simp [PyDict.get, List.find?, h0]
+        rw [a1, a2, ih]
+
+/-- a truthy recorded uuid is never overwritten by a later record -/
+theorem recordUuid_keeps (d d' : PyDict) (n : Str) (u : Option Str) (k : Str)
+    (h : recordUuid d n u = .ok d') (hk : truthy (d.get k) = true) : d'.get k = d.get k := by
+  unfold recordUuid at h
+  simp only [] at h
+  split at h
+  · split at h
+    · cases h
+    · cases h; rfl
+  · next hf =>
+    cases h
+    by_cases e : k = n
+    · subst e; simp [hk] at hf
+    · exact get_set_other d n k u e
+
+/-- after recording a truthy uuid for a name, that uuid is what is recorded -/
+theorem recordUuid_records (d d' : PyDict) (n : Str) (u : Option Str)
+    (h : recordUuid d n u = .ok d') (hu : truthy u = true) : d'.get n = u := by
+  unfold recordUuid at h
+  simp only [] at h
+  split at h
+  · split at h
+    · cases h
+    · next ht hc =>
+      cases h
+      simp only [hu, true_and, ne_eq, Decidable.not_not] at hc
+      exact hc.symm
+  · cases h; exact get_set_same d n u
+
+theorem recordAll_keeps (d d' : PyDict) (refs : List (Str × Option Str)) (k : Str)
+    (h : recordAll d refs = .ok d') (hk : truthy (d.get k) = true) : d'.get k = d.get k := by
+  induction refs generalizing d with
+  | nil => simp [recordAll] at h; subst h; rfl
+  | cons r rs ih =>
+    rcases r with ⟨n, u⟩
+    simp only [recordAll] at h
+    split at h
+    · next d1 h1 =>
+      have e1 := recordUuid_keeps d d1 n u k h1 hk
+      have := ih d1 h (by rw [e1]; exact hk)
+      rw [this, e1]
+    · cases h
+
+theorem recordAll_records (d d' : PyDict) (refs : List (Str × Option Str))
+    (h : recordAll d refs = .ok d') (hall : ∀ r, r ∈ refs → truthy r.2 = true) :
+    ∀ r, r ∈ refs → d'.get r.1 = r.2 := by
+  induction refs generalizing d with
+  | nil => intro r hr; cases hr
+  | cons r0 rs ih =>
+    rcases r0 with ⟨n, u⟩
+    simp only [recordAll] at h
+    split at h
+    · next d1 h1 =>
+      intro r hr
+      simp at hr
+      rcases hr with rfl | hr
+      · have hu := hall (n, u) (by simp)
+        have e1 := recordUuid_records d d1 n u h1 hu
+        have := recordAll_keeps d1 d' rs n h (by rw [e1]; exact hu)
+        rw [this, e1]
+      · exact ih d1 h (fun r' hr' => hall r' (by simp [hr'])) r hr
+    · cases h
+
+theorem generateMissing_keeps (d : PyDict) (c : Nat) (k : Str) (hk : truthy (d.get k) = true) :
+    (generateMissing d c).1.get k = d.get k := by
+  induction d generalizing c with
+  | nil => simp [generateMissing]
+  | cons e d ih =>
+    rcases e with ⟨k0, v0⟩
+    by_cases h0 : k0 = k
+    · subst h0
+      have hv : truthy v0 = true := by simpa [PyDict.get, List.find?] using hk
+      simp [generateMissing, hv, PyDict.get, List.find?]
+    · have a : PyDict.get ((k0, v0) :: d) k = PyDict.get d k := by simp [PyDict.get, List.find?, h0]
+      rw [a] at hk ⊢
+      simp only [generateMissing]
+      split
+      · have := ih c hk
+        simpa [PyDict.get, List.find?, h0] using this
+      · have := ih (c + 1) hk
+        simpa [PyDict.get, List.find?, h0] using this
+
+/-- `to_rows(); render(); to_rows()` — the export sees the same references before and after,
+PROVIDED every reference carries a uuid in the input -/
+theorem render_toRows_commute (d d' : PyDict) (refs refs' : List (Str × Option Str)) (c c' : Nat)
+    (h : validate d refs c = .ok (d', refs', c')) (hall : ∀ r, r ∈ refs → truthy r.2 = true) :
+    refs' = refs := by
+  unfold validate at h
+  split at h
+  · cases h
+  · next d1 h1 =>
+    simp only [Except.ok.injEq, Prod.mk.injEq] at h
+    obtain ⟨hd, hr, _⟩ := h
+    subst hr
+    have hrec := recordAll_records d d1 refs h1 hall
+    have key : ∀ r, r ∈ refs → (r.1, d'.get r.1) = r := by
+      intro r hr
+      have e1 := hrec r hr
+      have := generateMissing_keeps d1 c r.1 (by rw [e1]; exact hall r hr)
+      rw [← hd, this, e1]
+    rw [hd]
+    simp only [assign]
+    calc refs.map (fun r => (r.1, d'.get r.1)) = refs.map id := List.map_congr_left (by intro r hr; simpa using key r hr)
+      _ = refs := by simp
+
+example : validate [] [("g".toList, some "u".toList)] 0 = .ok ([("g".toList, some "u".toList)], [("g".toList, some "u".toList)], 0) := by rfl
+
+/-- the hypothesis is forced (known finding F-C13-a): a reference without uuid comes back from
+`render` with an invented one, which the next `to_rows` exports -/
+theorem render_toRows_commute_needs_given :
+    validate [] [("g".toList, none)] 0 = .ok ([("g".toList, some "#0".toList)], [("g".toList, some "#0".toList)], 1) := by rfl
 
 /-! ## (e) export scratch state (thin: the DFS is an arbitrary function) -/
 
